@@ -5,7 +5,7 @@ RULE = ("outline: every forest shape with up to N items (N=4 quick, 5 thorough) 
         "forests (depth <= 4, width <= 4, <= 60 items), written by the real Document/PdfWriter under classic, xref-stream and (rarely) "
         "object-stream configurations, re-opened, ALL outline item dictionaries collected by scanning the objects (not by following "
         "links), compared with the emission model and judged by the 12.3.3 navigability checker; dest: the /Dest of every item against "
-        "the authored page. non-trivial = some non-last sibling has children (sibling ids not contiguous); distinct by case text")
+        "the authored page; names: named destinations of a Document serialized 1..3 times, every authored name must resolve in every copy. non-trivial = some non-last sibling has children (sibling ids not contiguous); distinct by case text")
 
 
 def classify(case, code):
@@ -18,4 +18,4 @@ def run(r):
     r.rule = RULE
     r.assumptions = ["allocate_object_id hands out consecutive ids for the reserved block (checked by the correspondence: model ids = written ids)",
                      "the library's own parser is used to read the written dictionaries back (object level only)"]
-    return standard(r, "c28", ["theories/C28/Proofs.vo"], ["theories/C28/Model.vo"], ["outline", "dest"], classify=classify)
+    return standard(r, "c28", ["theories/C28/Proofs.vo"], ["theories/C28/Model.vo"], ["outline", "dest", "names"], classify=classify)
